@@ -3,6 +3,12 @@
 EXTENDS H265, TraceIO
 VARIABLES l, st
 
+HugeReason(e) ==     \* one item of about 17 MB: the harness reports lengths and equality facts (the bytes do not travel)
+  IF e.res # "ok" THEN "huge_item_panic"
+  ELSE IF e.nfrags = 0 THEN "huge_item_no_packets"
+  ELSE IF e.maxlen > e.mtu THEN "huge_item_fragment_exceeds_mtu"
+  ELSE IF \E k \in 1..Len(e.facts) : ~e.facts[k] THEN "huge_item_not_reproduced"
+  ELSE ""
 DecodeReason(e) ==
   LET r == RefParse(e.bytes, e.donl) IN
   IF r.ok # e.wantok \/ (r.ok /\ r.m # e.want) THEN "oracle_disagrees_with_case"
@@ -55,6 +61,7 @@ PayloadReason(e) ==
       ELSE ""
 Reason(e) ==
   CASE e.ev = "decode" -> DecodeReason(e)
+    [] e.ev = "huge" -> HugeReason(e)
     [] e.ev = "hdr16" -> Hdr16Reason(e)
     [] e.ev = "fu8" -> Fu8Reason(e)
     [] e.ev = "payload" -> PayloadReason(e)
